@@ -82,12 +82,20 @@ macro_rules! impl_subject_trivial {
     }
 
     impl<$($lf,)? Item, Err>  SubjectSize for $ty {
+      // subscribers that have unsubscribed or finished stay in the lists until
+      // the next `retain()`; they do not count as subscribers any more.
       fn is_empty(&self) -> bool{
         self
         .observers
         .rc_deref().as_ref().map_or(true, |observers| {
-          observers.is_empty()
-            && self.chamber.rc_deref().as_ref().unwrap().is_empty()
+          observers.iter().all(|p| p.p_is_closed())
+            && self
+              .chamber
+              .rc_deref()
+              .as_ref()
+              .unwrap()
+              .iter()
+              .all(|p| p.p_is_closed())
         })
       }
 
